@@ -90,8 +90,16 @@ class Env:
             self._round(ev[1], ev[2])
         elif kind == "settle":
             n = 0
-            while not self.dead and self.w.readable_now():
+            while not self.dead:
+                # the reference may still hold unread input where the implementation has none (it has dropped that connection):
+                # the rounds go on until BOTH are quiet, otherwise what the reference still delivers would never be compared
+                wr = self.w.readable_now()
+                pending = self._spec_pending()
+                if not wr and not pending:
+                    break
                 self._round(0, [])
+                if not wr and self._spec_pending() == pending:
+                    break  # nothing the reference can consume (input of a connection it does not serve)
                 n += 1
                 if n > 200:
                     raise HarnessError("no quiescence")
@@ -107,6 +115,11 @@ class Env:
 
     def settle(self):
         return self.apply(["settle"])
+
+    def _spec_pending(self) -> int:
+        """bytes the reference hub has not read yet (plus one per connection waiting to be accepted)"""
+        n = sum(len(c.sock.rx) + (1 if c.sock.readable() and not c.sock.rx else 0) for c in self.s.conns)
+        return n + (1 if self.s.lsock.readable() else 0)
 
     def nready(self) -> int:
         """number of client sockets the next round will find ready (for enumerating service orders)"""
